@@ -163,6 +163,31 @@ def flexalg_k(rep, pid, binp, seed, n, timeout=600):
     return res
 
 
+def ns_witness(rep, pid, binp):
+    """The witness of C01_flex_algorithm_NS_refuted on the implementation (`vh flexalg baseline`): a row container with two baseline-aligned
+    children, evaluated in ComputeSize mode, must issue PerformLayout queries (and, through TaffyTree, store a grandchild's layout while an
+    enclosing evaluation only computes a size); the resumption must reproduce the implementation's events exactly."""
+    rc, out = vh(binp, ['flexalg', 'baseline'], timeout=60)
+    try:
+        cases, impl = parse_cr(out)
+        model = run_model('flexalg_ns_%s' % pid, IMPORTS, 'run_case', cases, scope='Z', elem='list Z', timeout=120)
+    except RuntimeError as ex:
+        rep.add_broken('correspondence', 'C01_flex_algorithm_NS_refuted witness (vh flexalg baseline)', str(ex)[-800:])
+        return
+    m = re.search(r'^SCRIBBLES (\d+)', out, re.M)
+    ev = events(impl[0]) if impl else []
+    layout_queries = [e for e in ev if e[0] == 'Q' and e[2][0] == 0]
+    ok = bool(impl) and impl[0] == model[0] and len(layout_queries) >= 2 and m is not None and int(m.group(1)) >= 1
+    rep.cov['flex_ns_witness'] = {'reproduces_on_implementation': ok, 'PerformLayout_queries_in_ComputeSize_evaluation': len(layout_queries),
+                                  'scribbles_through_TaffyTree': int(m.group(1)) if m else None,
+                                  'events': [describe_event(e) for e in ev]}
+    if not ok:
+        if impl and impl[0] == model[0] and not layout_queries:
+            log('[%s] the flex NS witness no longer lays children out in ComputeSize mode: C01_flex_algorithm_NS_refuted / notes/FLEXALG.md are stale' % pid)
+        rep.add_broken('correspondence', 'C01_flex_algorithm_NS_refuted witness vs implementation',
+                       {'impl': impl[:1], 'model': model[:1], 'scribbles': m.group(1) if m else None})
+
+
 if __name__ == '__main__':
     import sys
     seed, n = int(sys.argv[1]), int(sys.argv[2])
